@@ -2056,6 +2056,11 @@ func isGhostKey(k string) bool {
 	return strings.HasPrefix(k, "L$") || strings.HasPrefix(k, "G$") || strings.HasPrefix(k, "E$") || k == "$alloc"
 }
 
+// ghost counters (events, call counts) are part of the lock/protocol state a loop may change
+func isCounterKey(k string) bool {
+	return strings.HasPrefix(k, "E$") || strings.HasPrefix(k, "G$calls.")
+}
+
 // havocKeys forgets the listed heap keys.
 func (c *FCtx) havocKeys(st *State, keys []string) {
 	for _, k := range keys {
